@@ -1,0 +1,6 @@
+//go:build !verif
+// +build !verif
+
+package midicatdrv
+
+func verifTrace(ev string) {}
